@@ -60,6 +60,8 @@ pub const OWNER_SLOT: u32 = 21; // owner touches its own MaybeUninit slot, a = 0
 pub const THREAD_CLONE: u32 = 22; // a = thread id
 pub const NOTE: u32 = 23; // a = note code (FutureState transitions etc.), b = detail
 pub const USIZE_LOAD: u32 = 24; // returns an override or PASS
+pub const FIELD_READ: u32 = 25; // plain field read that the shim cannot see (Signal.waker)
+pub const FIELD_WRITE: u32 = 26; // plain field write that the shim cannot see (Signal.waker)
 // post-events: results, never scheduling points
 pub const RESULT: u32 = 100; // a = result of the preceding pre-event of this thread, b = extra
 
@@ -81,6 +83,16 @@ fn ord(o: ::core::sync::atomic::Ordering) -> u64 {
 #[inline]
 pub fn owner_slot<T>(p: *const T, how: u64) {
     hook(OWNER_SLOT, p as usize, how, ::core::mem::size_of::<T>() as u64);
+}
+
+/// Explicit events for accesses to a plain field shared through a raw pointer.
+#[inline]
+pub fn field_read<T>(p: *const T) {
+    hook(FIELD_READ, p as usize, 0, 0);
+}
+#[inline]
+pub fn field_write<T>(p: *const T) {
+    hook(FIELD_WRITE, p as usize, 0, 0);
 }
 
 #[inline]
